@@ -211,6 +211,10 @@ void run(Ctx &ctx) {
         const std::vector<Item> &third = ctx.quick() || ctx.secondary ? thin : items;
         if (!ctx.secondary) for (auto &t : third) { std::vector<Item> L3 = { items[i], items[j], t }; ra.list_case(L3, false); if (!ctx.quick()) rw.list_case(L3, false); }
     }
+    // every byte value as a key, as a value and on both sides of an item, alone and next to a plain item
+    { uint64_t bi = 0; for (int v = 1; v < 256; v++) { if (!ctx.mine(bi++) || ctx.expired()) continue; Str x(1, (char)v);
+        std::vector<std::vector<Item> > Ls = { { Item(x, std::make_pair(false, Str())) }, { Item("k", std::make_pair(true, x)) }, { Item(x, std::make_pair(true, x)) }, { Item("a", std::make_pair(true, Str("b"))), Item(x + "z", std::make_pair(true, "y" + x)) } };
+        for (auto &L : Ls) { ra.list_case(L, true); rw.list_case(L, false); } } }
     all_strings(ctx, "&=a+%41", (ctx.secondary ? 4 : ctx.quick() ? 6 : 8) + ctx.bonus, [&](const Str &s) { if (ctx.expired()) return; ra.splitter_case(s); rw.splitter_case(s); });
     big_sizes(ctx, lc);
     if (sw.tripped()) ctx.violation("", "S`a`0`0`A", "AddressSanitizer reported an invalid access");
